@@ -69,6 +69,15 @@ func sharedRound(c *fw.Ctx, G, iters, procs int) {
 				// failed pass must not leave anything behind for whoever gets the pooled object next
 				in = append(append([]byte{}, in...), 0x08)
 			}
+			if gr.Chance(1, 10) {
+				// well-formed at the top level, but the last occurrence of a repeated nested field is damaged:
+				// Decode succeeds, NestedResults decodes the good occurrences and then fails
+				if bad, ok := nestedCorruptInput(gr, def, fs, in); ok {
+					if _, ok := refParse(in); ok {
+						in = bad
+					}
+				}
+			}
 			inputs[g] = append(inputs[g], in)
 			var rq []reqT
 			for k := 0; k < 4; k++ {
@@ -138,6 +147,35 @@ func sharedRound(c *fw.Ctx, G, iters, procs int) {
 								}
 							}
 							n.Close()
+						}
+					}
+					// all occurrences of every nested tag, each result compared with its own occurrence's bytes
+					for _, e := range def.entries {
+						if e.sub == nil || e.key < 0 {
+							continue
+						}
+						nrs, nerr := res.NestedResults(e.key)
+						if nerr != nil {
+							continue
+						}
+						payloads := allPayloads(in, e.key)
+						for j, n := range nrs {
+							if n == nil || j >= len(payloads) {
+								continue
+							}
+							for _, se := range e.sub.entries {
+								if se.sub != nil || se.key < 0 {
+									continue
+								}
+								for _, name := range []string{"Bytess", "UInt64s", "Fixed32s"} {
+									got := accessPath(n, []int{se.key}, name)
+									if want, ok := refPathAnswer(payloads[j], e.sub, []int{se.key}, name); ok && want != got && o.viol == nil {
+										o.viol = &fw.Violation{Stream: "shared", Signature: "conc/foreign-value/nested-results",
+											What:  fmt.Sprintf("goroutine %d observed, in element %d of NestedResults, a value that is not its own input's", g, j),
+											Input: fmt.Sprintf("%s input=%s nested=%d tag=%d accessor=%s", desc, hexs(in), e.key, se.key, name), Expected: trunc(want, 200), Got: trunc(got, 200)}
+									}
+								}
+							}
 						}
 					}
 					res.Close()
